@@ -1,6 +1,7 @@
 import SaModel.Props.C02
 import SaModel.Props.C05
 import SaModel.Lemmas.C02PresentBridgeTyped
+import SaModel.Lemmas.C02PresentFloat
 /-
 C02 — the headline theorems of `Props/C02.lean` (and `Props.C05.read_typed_total`) restated against the INDEPENDENT reader-side
 specification `Spec/Present.lean` (written from the documentation; it imports nothing of `Read/*`), so that at no leaf the reader
@@ -16,11 +17,12 @@ model is compared with itself.  The restatement goes through the bridge `toD_eq_
                             the demanded value, or the table says `fails` and the read fails — no silent cell
 * `read_option_null_present`, `typed_present_layout_irrelevant`
 * the documented cells as theorems about the table itself, for EVERY codec `c` (`present_int_by_value`, `present_bool_from_int`,
-  `present_char`, `present_f16_as_f32`, `present_f64_as_f32`, `present_text_of_*`, `present_decimal_only_string`,
+  `present_char`, `present_f16_as_f32`, `present_f16_exact`, `present_f64_as_f32`, `present_text_of_*`, `present_decimal_only_string`,
   `present_dictionary`, `present_option`, `present_unit_option`, `present_null_into_non_option`, `present_created_text_not_borrowed`)
 
-`readCodec` (the texts of temporal / decimal values: `Codec/*.lean`, C14 / C15), `f16ToF32` / `f32ToF64` (`Data/DVal.lean`) and
-`Float.convert` (`Basic/Float.lean`) are the parts model and specification still share.
+`readCodec` (the texts of temporal / decimal values: `Codec/*.lean`, C14 / C15), `f32ToF64` (`Data/DVal.lean`; `f16ToF32` is tied to
+`Float.convert` on all 65 536 patterns: `f16ToF32_eq_convert`, `f16ToF32_nan`) and `Float.convert` (`Basic/Float.lean`) are the parts model and
+specification still share.
 -/
 namespace SaModel.Props.C02
 open SaModel SaModel.Read SaModel.Spec
@@ -130,6 +132,14 @@ theorem present_no_int_float (c : TextCodec) (v : Option Bits) (vals : List Int)
 theorem present_f16_as_f32 (c : TextCodec) (v : Option Bits) (vals : List Int) (x : Int) :
     typedRead c .f32 (.prim .float16 v vals) (.float x) = .value (.f32 (f16ToF32 x)) := by
   simp only [typedRead, presentScalar, leafKind, presentLeaf]
+
+/-- … and that widening IS the IEEE value (`Basic/Float.lean`), on every `f16` pattern that is not a NaN (a NaN is read as an `f32` NaN
+of the same sign: `f16ToF32_nan`) — `Lemmas/C02PresentFloat.lean`, all 65 536 patterns computed -/
+theorem present_f16_exact (c : TextCodec) (v : Option Bits) (vals : List Int) (x : Int)
+    (hn : Float.isNan Float.f16 (x.toNat % 65536) = false) :
+    typedRead c .f32 (.prim .float16 v vals) (.float x) =
+      .value (.f32 (Int.ofNat (Float.convert Float.f16 Float.f32 (x.toNat % 65536)))) := by
+  rw [present_f16_as_f32, f16ToF32_eq_convert x hn]
 
 theorem present_f64_as_f32 (c : TextCodec) (v : Option Bits) (vals : List Int) (x : Int) :
     typedRead c .f32 (.prim .float64 v vals) (.float x) =
